@@ -41,7 +41,8 @@ RULE = (
     "range, maximum blanked, transposed body), truncation after every line, wrapped-row layouts, and an injected I/O error at every "
     "read position (file object and path); call histories (stream histories): three files with different ids loaded through path / open file / StringIO in four "
     "orders, interleaved with refused header faults and I/O faults, the same file with both dtypes, repeated loads compared with DataArray.identical(); "
-    "every result judged whole (attrs exactly {gridID} or {gridID, file}). Non-trivial = non-square shape, or >= 1 blank cell, or >= 1 fault; distinct = hash of "
+    "every result judged whole (attrs exactly {gridID} or {gridID, file}); coordinate ranges (stream coords and 70 % of all generated files) searched so that "
+    "start + step*(n-1) misses the stop in float64 - the end nodes must be the header values bit for bit, no node outside, .sel of the corners works. Non-trivial = non-square shape, or >= 1 blank cell, or >= 1 fault; distinct = hash of "
     "(text, dtype, route, fault kind)."
 )
 ASSUMPTIONS = [
@@ -70,6 +71,8 @@ for _tier, _n in (("quick", 300), ("thorough", 6000)):
     FLOORS[_tier].update({"format:" + k: int(f * _n) for k, f in (
         ("id_line_leading_blanks", 0.12), ("id_line_leading_tab", 0.03), ("id_line_trailing_blanks", 0.1), ("id_with_inner_blank", 0.06), ("crlf_line_ends", 0.04),
         ("tab_between_numbers", 0.06), ("indented_lines", 0.1), ("trailing_blanks_on_lines", 0.08), ("blank_lines_at_end", 0.06), ("no_final_newline", 0.03))})
+for _tier, _n in (("quick", 40), ("thorough", 800)):
+    FLOORS[_tier].update({"coords:fragile_end_node": int(0.4 * 7 * _n), "coords:northing_axis_ascending": int(0.8 * _n), "coords:easting_axis_descending": int(0.8 * _n)})
 JOBS = {"quick": 1, "thorough": 8}
 CASE_TIMEOUT_S = 300
 
@@ -78,8 +81,8 @@ _STATE = {}
 
 def plan(tier):
     if tier == "quick":
-        return collections.OrderedDict(wellformed=300, wrapped=100, header_faults=70, body_faults=80, truncation=40, io_faults=40, histories=100)
-    return collections.OrderedDict(wellformed=6000, wrapped=2000, header_faults=1400, body_faults=1600, truncation=800, io_faults=800, histories=2000)
+        return collections.OrderedDict(wellformed=300, wrapped=100, header_faults=70, body_faults=80, truncation=40, io_faults=40, histories=100, coords=40)
+    return collections.OrderedDict(wellformed=6000, wrapped=2000, header_faults=1400, body_faults=1600, truncation=800, io_faults=800, histories=2000, coords=800)
 
 
 # ----------------------------------------------------------------------
@@ -435,6 +438,33 @@ def run_case(run, tap, stream, index, rng):  # noqa: U100
         spec = sf.random_spec(rng, _effective(dtype), small=True, blanks=bool(index % 2))
         for n, (kind, text) in enumerate(sf.truncations(spec)):
             _routes(run, mon, text, dtype, "truncation:" + kind, "%s-%d" % (tag, n), ("path", "stringio"))
+    elif stream == "coords":
+        # many (range, node count) pairs per case, chosen so that start + step*(n-1) does not round back to the stop: the first and last
+        # coordinate must still be the header values bit for bit (judged by the monitor on every load), and .sel on the corners must work
+        dtype = _dtype_arg(rng)
+        for k in range(8):
+            if index == 0 and k < len(sf.KNOWN_FRAGILE):
+                lo_t, hi_t, n = sf.KNOWN_FRAGILE[k]
+            else:
+                n = int(rng.integers(2, 61))
+                for _ in range(300):
+                    lo, hi = sf.random_range(rng)
+                    lo_t, hi_t = sf.fmt_number(rng, lo, "g" if k % 2 else "repr"), sf.fmt_number(rng, hi, "g" if k % 2 else "repr")
+                    if sf.end_node_is_fragile(float(lo_t), float(hi_t), n):
+                        break
+            fragile = sf.end_node_is_fragile(float(lo_t), float(hi_t), n)
+            run.count("coords:fragile_end_node" if fragile else "coords:plain_end_node")
+            other = int(rng.integers(2, 6))
+            shape = (n, other) if k % 2 else (other, n)
+            spec = sf.random_spec(rng, _effective(dtype), shape=shape, blanks=bool(k % 3 == 0), plain=bool(k % 2))
+            if k % 2:
+                spec.sn = [lo_t, hi_t] if k % 4 == 1 else [hi_t, lo_t]
+            else:
+                spec.we = [lo_t, hi_t] if k % 4 == 0 else [hi_t, lo_t]
+            run.count("coords:%s_axis_%s" % ("northing" if k % 2 else "easting", "ascending" if k % 4 < 2 else "descending"))
+            _routes(run, mon, spec.render(), dtype, "coords", "%s-%d" % (tag, k), ("path", "stringio") if k % 2 else ("stringio",))
+        run.sample("coords", {"range_tokens": [lo_t, hi_t], "nodes": n, "fragile": fragile,
+                              "monitor": "first node == header start and last node == header stop bit for bit; all nodes inside; .sel of both corners"})
     elif stream == "histories":
         _histories_case(run, mon, index, rng)
     elif stream == "io_faults":
